@@ -93,13 +93,16 @@ class Ctx:
             return False
         # forbidden constructs in the sources (comments stripped)
         bad = []
-        for dirpath, _, files in os.walk(os.path.join(VERIF, "lean", "Mathy")):
-            for f in files:
-                if f.endswith(".lean"):
-                    src = strip_comments(open(os.path.join(dirpath, f)).read())
-                    m = FORBIDDEN.search(src)
-                    if m:
-                        bad.append(f"{os.path.relpath(os.path.join(dirpath, f), VERIF)}: {m.group(0).strip()}")
+        # every module of the development = every import of the root module Mathy.lean
+        root_src = open(os.path.join(VERIF, "lean", "Mathy.lean")).read()
+        mods = re.findall(r"^import (Mathy\.[\w.]+)", root_src, re.M)
+        for mod in mods:
+            path = os.path.join(VERIF, "lean", *mod.split(".")) + ".lean"
+            src = strip_comments(open(path).read())
+            m = FORBIDDEN.search(src)
+            if m:
+                bad.append(f"{os.path.relpath(path, VERIF)}: {m.group(0).strip()}")
+        self.notes["modules_scanned"] = len(mods)
         if bad:
             self.broken.append({"kind": "forbidden construct", "detail": bad})
         if not theorems:
